@@ -250,36 +250,37 @@ def r7(ctx, facts):
     r = ctx.rule("R7", "every keepalive round issues a keepalive request and awaits it", floor=3)
     kb = facts.one(r"^scylla::network::connection::Connection::keepaliver::\{closure#0\}$")
     ticks = [c for c in kb.calls_to("tokio::time::interval::Interval::tick") if c.bb in kb.reachable_after(c.bb)]
-    issue = [c for c in kb.calls() if (c[1].name or "").endswith("keepaliver::{closure#0}::issue_keepalive_query")]
-    issue = [c for _, c in issue]
-    if len(ticks) != 1 or len(issue) != 1:
-        raise AnchorLost("keepaliver: expected one Interval::tick inside the loop and one issue_keepalive_query call, found %d/%d" % (len(ticks), len(issue)))
-    tick, iss = ticks[0], issue[0]
-    r.instance("round-sends-keepalive", tick.bb not in kb.reachable_after(tick.bb, removed_nodes=[iss.bb]),
+    issue = [c for _, c in kb.calls() if (c.name or "").endswith("keepaliver::{closure#0}::issue_keepalive_query") and c.bb in kb.live_blocks]
+    if len(ticks) != 1 or not issue:
+        raise AnchorLost("keepaliver: expected one Interval::tick inside the loop and at least one issue_keepalive_query call, found %d/%d" % (len(ticks), len(issue)))
+    tick = ticks[0]
+    r.instance("round-sends-keepalive", tick.bb not in kb.reachable_after(tick.bb, removed_nodes=[c.bb for c in issue]),
                "every iteration of the keepalive loop (tick or hint) must reach issue_keepalive_query before waiting for the next tick: a round that is skipped leaves a silent peer undetected", tick.span)
-    # the issued future is awaited (directly or inside timeout) before the next round
-    polls = []
-    for c in kb.calls_to("core::future::future::Future::poll"):
-        locs, _, _ = backward_slice(kb, c.args[0])
-        if iss.dest[0] in locs:
-            polls.append(c)
-    r.instance("keepalive-awaited", bool(polls) and tick.bb not in kb.reachable_from(iss.target, removed_nodes=[c.bb for c in polls]),
-               "the future returned by issue_keepalive_query must be polled before the next round", iss.span)
-    # ...and only a Ready poll of it lets the loop continue
-    good = bool(polls)
     df = df_of(kb, facts)
-    for c in polls:
-        sws = switch_on(kb, df, ("disc", (c.dest[0], ())))
-        if not sws:
-            good = False
-            continue
-        for sw in sws:
-            edges, other = switch_edges(kb, sw)
-            pend = edges.get(1, other)
-            # the Pending edge must come back to this poll (through the yield) before it can reach the next tick
-            if tick.bb in kb.reachable_from(pend, removed_nodes=[c.bb]):
-                good = False
-    r.instance("next-round-only-after-reply", good, "a Pending keepalive must be polled again, not abandoned for the next tick (the timeout/err exits are rule R5)", iss.span)
+    awaited, ready_only = True, True
+    for iss in issue:
+        # the issued future is awaited (directly or inside timeout) before the next round
+        polls = []
+        for c in kb.calls_to("core::future::future::Future::poll"):
+            locs, _, _ = backward_slice(kb, c.args[0])
+            if iss.dest[0] in locs:
+                polls.append(c)
+        if not polls or tick.bb in kb.reachable_from(iss.target, removed_nodes=[c.bb for c in polls]):
+            awaited = False
+        # ...and only a Ready poll of it lets the loop continue
+        for c in polls:
+            sws = switch_on(kb, df, ("disc", (c.dest[0], ())))
+            if not sws:
+                ready_only = False
+                continue
+            for sw in sws:
+                edges, other = switch_edges(kb, sw)
+                pend = edges.get(1, other)
+                # the Pending edge must come back to this poll (through the yield) before it can reach the next tick
+                if tick.bb in kb.reachable_from(pend, removed_nodes=[c.bb]):
+                    ready_only = False
+    r.instance("keepalive-awaited", awaited, "the future returned by issue_keepalive_query must be polled before the next round", issue[0].span)
+    r.instance("next-round-only-after-reply", ready_only, "a Pending keepalive must be polled again, not abandoned for the next tick (the timeout/err exits are rule R5)", issue[0].span)
 
 
 def check(ctx):
